@@ -29,16 +29,16 @@ CHECKS = {
  "C16": ("fault_enumeration", "runtime fault enumeration: every strict prefix of each generated stream (all offsets up to 8 KiB, field boundaries +-1 and a sample beyond) read into a fresh receiver under recover + watchdog; full kind x kind and one-parameter-off mismatch matrix; version patch; every prefix of every component file of a damaged segment opened through the store",
          "Enumerated ~190k prefixes over 96 streams (quick) of all 8 kinds, 672 cross-kind pairings, every one-parameter receiver variant, and the segment clause over every byte prefix of the 4 gzip files of a damaged segment next to an intact one.",
          "Prefixes are cut from streams the implementation itself produced; exhaustive=true only when every offset of every stream of the run was tried.", "DESIGN.md §4 C16"),
- "C08": ("exploration", "runtime monitor: acknowledged-write visibility model over generated sequential store histories (every search twice and again after the next op), differential vector-only id sets vs an in-memory index, hook-driven targeted schedules (action run beside a goroutine paused at each hook point), structural instance-ownership monitor",
-         "Held (apart from the listed compaction finding) on 120/2500 histories over memtable limits from one document up, synchronous and background flushes, forced rotations, compactions, cache evictions, plus 132/792 targeted schedules over 22 hook points x 6 actions; ~14k index instances tracked for sharing.",
+ "C08": ("exploration", "runtime monitor: acknowledged-write visibility model over generated sequential store histories (every search twice and again after the next op), differential vector-only id sets vs an in-memory index, hook-driven targeted schedules (action run beside a goroutine paused at each hook point; sampled depth-2 schedules where that action is itself paused while a third runs), refused writes whose ids may never surface, structural instance-ownership monitor",
+         "Held (apart from the listed compaction finding) on 120/2500 histories over memtable limits from one document up, synchronous and background flushes, forced rotations, compactions, cache evictions, plus 217/1302 depth-1 targeted schedules over 31 hook points x 7 actions and 60/900 sampled depth-2 schedules; ~14k index instances tracked for sharing.",
          "Background-flush interleavings are whatever the scheduler produces (the oracle does not depend on them); compaction losses are matched per document against the doc->segment map read back from disk.", "DESIGN.md §4 C08"),
- "C09": ("exploration", "runtime monitor: durable-set model over multi-session open/add/flush/close histories, every open with freshly constructed templates, one all-matching query per modality after every reopen (twice), sha256 of earlier segment files and id monotonicity checked after every acknowledged flush",
-         "Held on 60/1500 multi-session cases over flat / HNSW / trained IVF / no vector template, with and without text and metadata, memtable limits from one document up.",
+ "C09": ("exploration", "runtime monitor: durable-set model over multi-session open/add/flush/close histories, every open with freshly constructed templates, one all-matching query per modality after every reopen (twice), sha256 of earlier segment files and id monotonicity checked after every acknowledged flush (after every Close when the background flush worker is on), a directory image reopened right after every acknowledged mid-session Flush, injected file-creation faults, a store trained late and restarted",
+         "Held on 60/1500 multi-session cases over flat / HNSW / trained IVF / PQ / IVFPQ / no vector template, with and without text and metadata, memtable limits from one document up, every third case with the real background flush worker, compaction thresholds 2..1000; plus 16/200 trained-late restarts.",
          "Reopen in the same process with fresh template objects (new process in the thorough tier); HNSW kept exact per segment, IVF searched at full probe.", "DESIGN.md §4 C09"),
  "C10": ("fault_enumeration", "runtime fault enumeration: directory snapshot at every crash:* hook point of flush / compaction / deletion plus every byte prefix of every in-flight file, each distinct image reopened with fresh templates and checked against the durable-set model, per-segment all-or-nothing and id-reuse checks",
          "Enumerated ~110 boundaries and ~9000 distinct crash images per quick run (8 histories with 0-3 completed flushes, interrupted flush or compaction); byte prefixes exhaustive (all files < 4 KiB).",
          "Process-death semantics (page cache survives); files are written sequentially so intermediate states are prefixes; power loss / fsync is outside the property.", "DESIGN.md §4 C10"),
- "C11": ("exploration", "Go race detector over shared-instance stress workloads of all 9 kinds + recorded client-boundary histories checked by an interval form of the visibility sentence and by porcupine (per-id present/absent registers), post-quiescence state check, auto-id uniqueness, hook-driven targeted store schedules, watchdog with goroutine-dump deadlock classification",
+ "C11": ("exploration", "Go race detector over shared-instance stress workloads of all 9 kinds + recorded client-boundary histories checked by an interval form of the visibility sentence and by porcupine (per-id present/absent registers), post-quiescence state check, auto-id uniqueness, hook-driven targeted store schedules (depth 1, sampled depth 2, remove-vs-flush, Close-vs-everything), watchdog with goroutine-dump deadlock classification",
          "Held on 90/1350 concurrent histories (2-16 goroutines, few keys, ~400 ops each) + 8/100 store race-only histories with compaction/eviction/Close + 35/175 targeted schedules + add-vs-rotation+flush and Close-vs-everything schedules, all under -race with 0 reports; overlapping operation pairs per kind are listed in the evidence.",
          "Absence of a race report covers only operation pairs that overlapped; interleavings finer than the hook points are whatever the scheduler produced; watchdog firing without a provable wait cycle is inconclusive.", "DESIGN.md §4 C11"),
  "C12": ("exploration", "runtime monitor: exact k-NN comparison inside the small-graph regime, non-emptiness after every op, BFS reachability invariant on the graph read through a verif accessor at quiescent points, adversarial removal targets chosen on the graph",
@@ -50,10 +50,10 @@ CHECKS = {
  "C14": ("exploration", "runtime monitor: nearest-codeword invariant on stored codes, float64 ADC recomputation of every score, quantisation-error bound, crafted self-reconstructing vectors; constructors probed for every nbits 1..16",
          "Held on 480/6000 PQ/IVFPQ histories over M 1..8, every accepted code size, nlist 1..16, training sets from the minimum accepted size up.",
          "Codebooks/centroids/codes read through read-only accessors; code sizes too expensive to train would be counted inconclusive (none accepted any more).", "DESIGN.md §4 C14"),
- "C15": ("exploration", "runtime monitor: measured recall@10 / top-1-in-10 / first-vs-last-tenth recall against FlatIndex on seed-derived Gaussian data sets, compared with the property's own floors",
+ "C15": ("exploration", "runtime monitor: measured recall@10 / top-1-in-10 / first-vs-last-tenth recall against FlatIndex on seed-derived Gaussian data sets (3000 points, or 2701..3299 and no round number; ids from 1 or beyond 2^20), compared with the property's own floors",
          "Held on 2/8 data sets (3000 x N(0,1)^16, 100 queries) x 4 approximate kinds x 3 metrics, built through the public API in generation and shuffled order; measured values are written to the evidence.",
          "Statistical clause decided against the property's floors, which sit far below the measured values.", "DESIGN.md §4 C15"),
- "C17": ("exploration", "runtime monitor: free|owned model over generated Open/Close/failed-Open/closed-handle sequences with full directory diffs (LOCK bytes, segment bytes), goroutine races for Open and against Close, a second OS process (cmd/storehelper) as competing owner, RLIMIT_NOFILE fault injection for 'listing fails after the lock was taken'",
+ "C17": ("exploration", "runtime monitor: free|owned model over generated Open/Close/failed-Open/closed-handle sequences with full directory diffs (LOCK bytes, segment bytes), goroutine races for Open and against Close, a second OS process (cmd/storehelper) as competing owner, RLIMIT_NOFILE fault injection for 'listing fails after the lock was taken', hook-driven hand-over schedules (Close beside a held compaction / a held explicit Flush, Opens beside a Close held between closing and removing its lock file)",
          "Held on 200/3000 sequences (~200 refused opens, ~120 opens failing after the lock, ~200 stale second Closes per quick run), 40/600 race rounds and 4/40 two-process rounds.",
          "Unlistable directory emulated by EMFILE on the ReadDir after LOCK creation (root cannot be denied by chmod); 60 s watchdog per racing operation.", "DESIGN.md §4 C17"),
  "C18": ("exploration", "runtime monitor: metric-law assertions on generated vector tuples vs float64 recomputation",
